@@ -475,3 +475,27 @@ pub fn url_match<'a>(
     ));
     Some((inl, rewind, rewind + link_end))
 }
+
+/// Verification hook: `check_domain`.
+#[cfg(comrak_verif)]
+pub fn verif_check_domain(data: &[u8], allow_short: bool) -> Option<usize> {
+    check_domain(data, allow_short)
+}
+
+/// Verification hook: `is_valid_hostchar`.
+#[cfg(comrak_verif)]
+pub fn verif_is_valid_hostchar(ch: char) -> bool {
+    is_valid_hostchar(ch)
+}
+
+/// Verification hook: `autolink_delim`.
+#[cfg(comrak_verif)]
+pub fn verif_autolink_delim(data: &[u8], link_end: usize, relaxed_autolinks: bool) -> usize {
+    autolink_delim(data, link_end, relaxed_autolinks)
+}
+
+/// Verification hook: `validate_protocol`.
+#[cfg(comrak_verif)]
+pub fn verif_validate_protocol(protocol: &str, contents: &[u8], cursor: usize) -> bool {
+    validate_protocol(protocol, contents, cursor)
+}
